@@ -7,4 +7,7 @@ trap 'git -C /repo checkout -- . ; rmdir /tmp/repo.lock' EXIT
 if [ -n "$(git -C /repo status --short)" ]; then echo "with_patch: /repo is not clean"; git -C /repo status --short; exit 2; fi
 git -C /repo apply "$patch" || { echo "with_patch: patch does not apply"; exit 2; }
 cd /verif && ./check "$@"
-echo "with_patch: check exit code $?"
+rc=$?
+# the evidence file now describes the patched tree: put the committed one back
+git -C /verif checkout -- "evidence/$1.json" 2>/dev/null
+echo "with_patch: check exit code $rc"
